@@ -166,10 +166,18 @@ theorem four_of_four {α : Type} [DecidableEq α] (l : List α) (a b c d : α) (
   intro x hx
   exact hp.mem_iff.mpr hx
 
-/-- **The rectangle strokes exactly the union of the strokes of the group it replaces.** -/
-theorem endorseRect_strokes (frags : List Frag) (r : Frag) (h : endorseRect frags = some r)
-    (hok : ∀ f ∈ frags, f.StrokeOk) (P : RPt) :
-    r.outline P ↔ ∃ f ∈ frags, f.strokes P := by
+/-- what `endorse_rect` accepts, spelled out: a proper box `x0 < x1`, `y0 < y1`, the group consists of
+exactly its four sides, and the rectangle spans it -/
+theorem endorseRect_core (frags : List Frag) (r : Frag) (h : endorseRect frags = some r)
+    (hok : ∀ f ∈ frags, f.StrokeOk) :
+    ∃ x0 x1 y0 y1 : Int, ∃ bT bB bL bR : Bool, x0 < x1 ∧ y0 < y1 ∧
+      boundsSides frags =
+        [(⟨x0, y0⟩, ⟨x1, y0⟩), (⟨x0, y1⟩, ⟨x1, y1⟩), (⟨x0, y0⟩, ⟨x0, y1⟩), (⟨x1, y0⟩, ⟨x1, y1⟩)] ∧
+      r = .rect ⟨x0, y0⟩ ⟨x1, y1⟩ false none (frags.any Frag.isBroken) ∧
+      Frag.line ⟨x0, y0⟩ ⟨x1, y0⟩ bT ∈ frags ∧ Frag.line ⟨x0, y1⟩ ⟨x1, y1⟩ bB ∈ frags ∧
+      Frag.line ⟨x0, y0⟩ ⟨x0, y1⟩ bL ∈ frags ∧ Frag.line ⟨x1, y0⟩ ⟨x1, y1⟩ bR ∈ frags ∧
+      ∀ f ∈ frags, f ∈ [Frag.line ⟨x0, y0⟩ ⟨x1, y0⟩ bT, Frag.line ⟨x0, y1⟩ ⟨x1, y1⟩ bB,
+        Frag.line ⟨x0, y0⟩ ⟨x0, y1⟩ bL, Frag.line ⟨x1, y0⟩ ⟨x1, y1⟩ bR] := by
   have hr := endorseRect_some frags r h
   obtain ⟨hlen, hsides⟩ := isRect_sides frags hr
   have hmem := linesAreSides_mem frags hsides
@@ -264,20 +272,44 @@ theorem endorseRect_strokes (frags : List Frag) (r : Frag) (h : endorseRect frag
         simp only [List.nodup_cons, List.mem_cons, List.mem_nil_iff, or_false, Frag.line.injEq,
           Pt.mk.injEq, List.not_mem_nil, not_false_eq_true, List.nodup_nil, and_true]
         omega)
-      simp only [Frag.outline]
-      constructor
-      · rintro (h1 | h1 | h1 | h1)
-        · exact ⟨_, hT, h1⟩
-        · exact ⟨_, hB, h1⟩
-        · exact ⟨_, hL, h1⟩
-        · exact ⟨_, hR, h1⟩
-      · rintro ⟨f, hf, hs⟩
-        have := hall f hf
-        simp only [List.mem_cons, List.mem_nil_iff, or_false] at this
-        rcases this with rfl | rfl | rfl | rfl
-        · exact Or.inl hs
-        · exact Or.inr (Or.inl hs)
-        · exact Or.inr (Or.inr (Or.inl hs))
-        · exact Or.inr (Or.inr (Or.inr hs))
+      exact ⟨x0, x1, y0, y1, bT, bB, bL, bR, hx, hy, hbs, rfl, hT, hB, hL, hR, hall⟩
+
+/-- **The rectangle strokes exactly the union of the strokes of the group it replaces.** -/
+theorem endorseRect_strokes (frags : List Frag) (r : Frag) (h : endorseRect frags = some r)
+    (hok : ∀ f ∈ frags, f.StrokeOk) (P : RPt) :
+    r.outline P ↔ ∃ f ∈ frags, f.strokes P := by
+  obtain ⟨x0, x1, y0, y1, bT, bB, bL, bR, _, _, _, rfl, hT, hB, hL, hR, hall⟩ :=
+    endorseRect_core frags r h hok
+  simp only [Frag.outline]
+  constructor
+  · rintro (h1 | h1 | h1 | h1)
+    · exact ⟨_, hT, h1⟩
+    · exact ⟨_, hB, h1⟩
+    · exact ⟨_, hL, h1⟩
+    · exact ⟨_, hR, h1⟩
+  · rintro ⟨f, hf, hs⟩
+    have := hall f hf
+    simp only [List.mem_cons, List.mem_nil_iff, or_false] at this
+    rcases this with rfl | rfl | rfl | rfl
+    · exact Or.inl hs
+    · exact Or.inr (Or.inl hs)
+    · exact Or.inr (Or.inr (Or.inl hs))
+    · exact Or.inr (Or.inr (Or.inr hs))
+
+/-- the group of an endorsed rectangle is nothing but the four sides of its bounding box -/
+theorem endorseRect_group_is_sides (frags : List Frag) (r : Frag) (h : endorseRect frags = some r)
+    (hok : ∀ f ∈ frags, f.StrokeOk) :
+    ∀ f ∈ frags, ∃ se ∈ boundsSides frags, ∃ b, f = Frag.line se.1 se.2 b := by
+  obtain ⟨x0, x1, y0, y1, bT, bB, bL, bR, _, _, hbs, _, _, _, _, _, hall⟩ :=
+    endorseRect_core frags r h hok
+  intro f hf
+  have := hall f hf
+  rw [hbs]
+  simp only [List.mem_cons, List.mem_nil_iff, or_false] at this
+  rcases this with rfl | rfl | rfl | rfl
+  · exact ⟨(⟨x0, y0⟩, ⟨x1, y0⟩), by simp, bT, rfl⟩
+  · exact ⟨(⟨x0, y1⟩, ⟨x1, y1⟩), by simp, bB, rfl⟩
+  · exact ⟨(⟨x0, y0⟩, ⟨x0, y1⟩), by simp, bL, rfl⟩
+  · exact ⟨(⟨x1, y0⟩, ⟨x1, y1⟩), by simp, bR, rfl⟩
 
 end Svgbob
